@@ -34,6 +34,8 @@ type ReplayFile struct {
 	RunSeed   uint64              `json:"run_seed"`
 	Config    map[string]any      `json:"config"`
 	Fired     []string            `json:"fired_kinds"`
+	OrigFired []string            `json:"original_fired_kinds,omitempty"`
+	OrigClass string              `json:"original_class,omitempty"`
 	Tapes     map[string][]uint64 `json:"tapes"`
 	LogDigest string              `json:"event_log_digest"`
 	Minimised bool                `json:"minimised"`
@@ -164,6 +166,8 @@ func Worker(prop, engine, tier string, verifSeed uint64, from, step, total int, 
 		rf := Minimise(e, prop, tier, t.Used(), seed, v, budget, 60*time.Second)
 		rf.VerifSeed = verifSeed
 		rf.RunIndex = i
+		rf.OrigFired = info.FiredKinds()
+		rf.OrigClass = v.Class
 		if id := findings.Match(rf); id != "" {
 			res.Known[id]++
 			if res.KnownRep[id] == "" {
@@ -239,6 +243,11 @@ func Replay(path string) (rf *ReplayFile, v *Violation, same bool, err error) {
 		return rf, nil, false, nil
 	}
 	same = v.Class == rf.Class && info.LogDigest() == rf.LogDigest
+	if os.Getenv("VERIF_REPLAY_TRACE") != "" {
+		for _, l := range info.Trace {
+			fmt.Fprintln(os.Stderr, "  "+l)
+		}
+	}
 	return rf, v, same, nil
 }
 
@@ -455,6 +464,9 @@ func Check(o CheckOptions) int {
 	for k, v := range o.ExtraCov {
 		cov[k] = v
 	}
+	if o.Assume == nil {
+		o.Assume = []string{"sampling: a clean batch is evidence over the seeded runs, not a proof"}
+	}
 	ev := Evidence{PropertyID: o.Prop, Tier: o.Tier, Seed: int64(o.Seed), Level: spec.Level, Coverage: cov,
 		Assumptions: o.Assume, WallS: wall, Violations: len(confirmed)}
 	if err := writeJSON(filepath.Join(VerifDir(), "evidence", o.Prop+".json"), ev); err != nil {
@@ -514,6 +526,10 @@ func TraceRuns(prop, engine, tier string, verifSeed uint64, from, to int, verbos
 			cls = v.Class
 		}
 		fmt.Fprintf(w, "run=%d seed=%d digest=%s sig=%016x draws=%d class=%s panic=%v\n", i, seed, info.LogDigest(), info.SigDigest(), countDraws(t.Rec), cls, hp)
+		if verbose {
+			cfg, _ := json.Marshal(info.Config)
+			fmt.Fprintf(w, "  CONFIG %s FIRED %v\n", cfg, info.FiredKinds())
+		}
 		if v != nil && verbose {
 			fmt.Fprintf(w, "  VIOLATION %s: %s\n", v.Class, v.Detail)
 		}
